@@ -861,22 +861,37 @@ def check(run: common.Run):
               "literal sides, x and/or (exhaustive); triples (sampled in quick, exhaustive in thorough); nested "
               "same-operator forms; seeded random mixed formulas. negate: all single/pair conditions over 10 "
               "operators + random trees. redundant: ALL truthy/falsy/unknown masks up to length "
-              f"{maxlen} x and/or (exhaustive). sums: all sum(range(a,b)), a,b in [-4,6]. Non-trivial = the rule "
+              f"{maxlen} x and/or (exhaustive). sums: all sum(range(a,b)), a,b in [-4,6]. constrained range: "
+              "range forms = 1/2/3 literal arguments with start, stop in [-2,6], step in {1,2,3,-1}, + symbolic "
+              "bounds n/m, symbolic/zero step, 0 and 4 arguments; x every single filter `x op c` / `c op x`, "
+              "op in > < >= <= == (and != / opaque / non-int-constant filters), c in [-2,7] (exhaustive in "
+              "thorough; in quick the 3-literal-argument forms are strided 1-in-3); pairs of filters under "
+              "`and` / two `if`s in list/set/generator form (strided shard; thorough: all pairs for the "
+              "2-argument forms); seeded random 1-3 `if`s of nested and-trees. Non-trivial = the rule "
               "yields a rewrite; distinct by source text."),
         samples=[items[0][3], items[n_pairs + 3][3], items[-1][3], c_text(nitems[-1][0]), ritems[-1][3],
-                 sums[5]["source"]],
+                 sums[5]["source"]] + rstats.pop("samples"),
         exhaustive=False, exhaustive_pairs=n_pairs, histogram=dict(hist),
         correspondence_disagreements=len(disagreements), property_oracle_failures=len(failures),
-        sum_cases_outside_model=len(sum_unrepresentable),
-        unmodelled=["symbolic_math.simplify_constrained_range", "symbolic_math.simplify_boolean_expressions_symmath "
-                    "(sympy)", "symbolic_math._integrate_over (sympy)"],
+        sum_cases_outside_model=len(sum_unrepresentable), constrained_range=rstats,
+        unmodelled=["symbolic_math.simplify_boolean_expressions_symmath (sympy)", "symbolic_math._integrate_over (sympy)",
+                    "simplify_constrained_range: the template walk that selects comprehensions (single generator, "
+                    "Name target, range call without keywords) and the rewrite machinery that applies the yields "
+                    "(C10) are exercised by the correspondence / text oracle, not modelled"],
         trusted_base=common.TRUSTED_BASE_COMMON + [
             "operand/cond term <-> Python text printers and AST readers in harness/c17.py",
             "structural equality of operand terms stands for equality of ast.unparse text",
-            "integer semantics cmp_sem / cmpop_sem are definitions (validated by the before/after evaluation sweep)"],
+            "integer semantics cmp_sem / cmpop_sem are definitions (validated by the before/after evaluation sweep)",
+            "RangeModel.zrange / comp_sem (meaning of list(range(..)) and of a filtered comprehension) are "
+            "definitions, validated against CPython on every run (zrange_case_ok, sem_case_ok)",
+            "range case <-> source text printer (rc_source) and the reader of the rule's yields (impl_range)"],
     )
     run.assumptions += ["float constants and non-integer variables are outside every theorem",
-                        "sympy-based rules and simplify_constrained_range are not modelled (listed under unmodelled)"]
+                        "sympy-based rules are not modelled (listed under unmodelled)",
+                        "constrained range: `range` is the builtin, non-literal bounds evaluate to ints without side "
+                        "effects, the remaining filters are total and side-effect free (folding changes how often "
+                        "they run -- the repository's own examples do that), conditions of several `if`s / `and` "
+                        "mean their conjunction"]
 
 
 def replay(path: str) -> int:
@@ -886,4 +901,16 @@ def replay(path: str) -> int:
                      indent=1))
     if data.get("kind") == "property-oracle" and data.get("site") == "simplify_boolean_expressions":
         print("now:", property_fails(mods, data["source"], mods["symbolic_math"].simplify_boolean_expressions))
+    if data.get("kind") == "property-oracle" and data.get("site") == "simplify_constrained_range":
+        with common.quiet():
+            try:
+                new = mods["symbolic_math"].simplify_constrained_range(data["source"])
+            except Exception as e:  # noqa
+                new = f"<crash {type(e).__name__}: {e}>"
+        print("now:", repr(new), "->", range_property_fails(data["source"], new) or "same elements in the same order")
+        print("yields:", impl_range(mods, data["source"]))
+    if data.get("kind") == "property-oracle" and data.get("site") == "main.format_code":
+        with common.quiet():
+            new = mods["main"].format_code(data["source"], preserve=frozenset({"f"}))
+        print("now:", repr(new), "->", program_property_fails(data["source"], new) or "same values")
     return 0
